@@ -1,14 +1,12 @@
 // C13: native fuzz target (thorough tier).  Input: a pattern text ('*' = wildcard, '\*' =
-// data asterisk) and a newline-separated token list.  Tokens are arbitrary bytes (the store
-// keeps tokens as bytes); the pattern must be valid UTF-8 because the query parser decodes
-// runes and can never hand anything else to the matcher.
+// data asterisk) and a newline-separated token list.  Tokens and pattern text are arbitrary
+// bytes: the store keeps tokens as bytes and SeqQL string literals keep raw bytes / \xNN.
 package c13
 
 import (
 	"sort"
 	"strings"
 	"testing"
-	"unicode/utf8"
 
 	"verif/internal/model"
 )
@@ -50,12 +48,15 @@ func FuzzGlob(f *testing.F) {
 		{"é*é", "é\néé\nèé\n\xc3"},
 		{"pre*mid*suf", "premidsuf\npremisuf\npresuf\nprexmidxsuf\n"},
 		{"*abc", "abc\nxabc\nabcx\nababc\n"},
+		{"\xff*", "\xff\n\xffa\n\xfe\xff\na\n\x00\n"},
+		{"a\xff*a", "a\xffa\na\xff\xffa\nb\na\x00a\n"},
+		{"\x00*\x00", "\x00\n\x00\x00\n\x00a\x00\n"},
 	}
 	for _, s := range seeds {
 		f.Add(s[0], s[1])
 	}
 	f.Fuzz(func(t *testing.T, pat string, toks string) {
-		if len(pat) > 256 || len(toks) > 4096 || !utf8.ValidString(pat) {
+		if len(pat) > 256 || len(toks) > 4096 {
 			return
 		}
 		p := parseFuzzPattern(pat)
